@@ -6,6 +6,7 @@
 ENGINES = {
     "H1": {"name": "pipe-sim", "pkg": "./bfe_util/pipe", "desc": "real bfe_util/pipe (mutex+cond) with writer/reader/closer/breaker tasks under the lock/cond-granular scheduler; porcupine linearizability against a bounded-FIFO model"},
     "H2": {"name": "prison-sim", "pkg": "./bfe_modules/mod_prison", "desc": "real mod_prison handler, rule table, rule-file loader and LRU dictionaries driven by timed request histories on the simulated clock"},
+    "B": {"name": "health-sim", "pkg": "./bfe_balance/backend", "desc": "real BfeBackend + UpdateStatus + check() goroutine (a scheduler task via the go-statement rewrite) probing through simnet with seeded verdicts on the fake clock"},
     "A": {"name": "balancer-sim", "pkg": "./bfe_balance", "desc": "real bal_table/bal_gslb/bal_slb/backend under the lock-granular scheduler, fake clock, configs through the real file loaders"},
 }
 
@@ -57,6 +58,12 @@ PROPS["C53"] = dict(engine="H2", runs=(20000, 600000), modes=[("nofault", 0.25),
     level_text="Seeded timed request histories (1-3 keys, 5-60 requests, gaps from 0 to several periods incl. exact window/jail boundary instants, rule reloads in between) on the simulator's fake clock through the real module handler, rule table and rule-file loader; every verdict is compared with a small fixed-window reference model that keeps a set of admissible states where a request falls exactly on a boundary instant.",
     level_note="Trusted: simrt fake clock (synctest), the reference model (fixed window opened by the first request after the previous one expired; > Threshold in a window jails until window end + StayPeriod). Sequential per the property's quantifier (histories, inputs); dictionaries sized so that LRU eviction is not in play.",
     technique="deterministic simulation: seeded timed histories on a simulated clock vs an executable reference model (state-set refinement at boundary instants)")
+
+PROPS["C06"] = dict(engine="B", runs=(6000, 200000), modes=[("nofault", 0.25), ("swarm", 0.75)], race=True, race_div=8,
+    level="exploration", design="§6 Engine B / C06",
+    level_text="Seeded search over interleavings of 1-3 reporter tasks (OnFail/OnSuccess scripts with simulated gaps), the real check() goroutine, a scripted probe listener on the simulated network whose verdict per probe (accept / refuse / time out / slow accept) comes from the tape, and an optional Release, on the fake clock (intervals 10 ms-10 s). Oracles over the seq-stamped history: down exactly at FailNum consecutive failures (exact for one reporter with an ambiguity range around recoveries, interval-based for several), at most one live checker task at every scheduler step, every recovery preceded by SuccNum consecutive successful probes, at most one probe after Release and checker exit within bounded simulated time; -race variant.",
+    level_note="Trusted: simrt/simnet, the task registry (a checker is a task whose entry function is backend.check with this backend as first argument), in-package read of the avail field at quiescence. TCP check mode only (HTTP mode goes through net/http, not simulated).",
+    technique="deterministic simulation: seeded schedules + seeded probe verdicts on a simulated network/clock; history oracles for thresholds, single-checker invariant at every step, bounded-time release")
 
 NOT_APPLICABLE = {
     "C10": "pure function of (host table, VIP table, Host header): no goroutine, clock, stream, file or peer takes part; the only thing to vary is input, which is generation, not simulation (DESIGN §7)",
